@@ -1,0 +1,24 @@
+//go:build verif
+
+package traverse
+
+// Contracts for the traverse plugin (C16, C01, C09), read by /verif's gvc (comment-only file).
+
+//@ func (g *gen) Add(name string, typs []types.Type) (r string, err error)
+//@ param typs: len=0,1,2,3
+//@ param name: classes=Ident
+
+//@ func (g *gen) Generate(typs []types.Type) (err error)
+//@ param typs: len=2
+
+//@ func (g *gen) genSlice(typs []types.Type) (err error)
+//@ param typs: len=2
+//@ emits: decls
+//@ serves: traverse len=2 typs=typs
+//@ o-sig: (f func($param0(typs[0])) ($result0(typs[0]), error), list []$param0(typs[0])) (r []$result0(typs[0]), rerr error)
+//@ o-requires: f != nil
+//@ o-ensures: [all-succeed] (forall j int :: 0 <= j && j < len(list) ==> result(1, f, list[j]) == nil) ==> rerr == nil && len(r) == len(list) && forall j int :: 0 <= j && j < len(list) ==> r[j] == result(0, f, list[j])
+//@ o-ensures: [first-failure] rerr != nil ==> r == nil && traceLen() >= 1 && rerr == result(1, f, list[traceLen() - 1]) && forall j int :: 0 <= j && j < traceLen() - 1 ==> result(1, f, list[j]) == nil
+//@ o-ensures: [in-order-no-call-after-failure] traceLen() <= len(list) && (forall j int :: 0 <= j && j < traceLen() ==> called(j, f, list[j])) && (rerr == nil ==> traceLen() == len(list))
+//@ o-loop: 1: invariant len(out) == len(list) && traceLen() == $i && out != nil
+//@ o-loop: 1: invariant forall j int :: 0 <= j && j < $i ==> result(1, f, list[j]) == nil && out[j] == result(0, f, list[j]) && called(j, f, list[j])
